@@ -1,4 +1,7 @@
 import Driver.Prg
+import Driver.Bls
+import Driver.Ecdsa
+import Driver.Hash
 
 /-! Model driver: one request per line on stdin, one canonical answer per line on stdout.
     First field: case id (echoed), second: operation. Unknown lines are answered `bad-op`. -/
@@ -7,6 +10,19 @@ def dispatch (op : String) (args : List String) : String :=
   match op with
   | "prg" => Driver.Prg.run args
   | "prgrestore" => Driver.Prg.runRestore args
+  | "fr.dec" => Driver.Bls.frDec args
+  | "pk.dec" => Driver.Bls.pkDec args
+  | "e1.dec" => Driver.Bls.e1Dec args
+  | "e2.dec" => Driver.Bls.e2Dec args
+  | "pk.of" => Driver.Bls.pkOf args
+  | "pk.zcash" => Driver.Bls.pkZcash args
+  | "sig.expect" => Driver.Bls.sigExpect args
+  | "e1" => Driver.Bls.e1Gen args
+  | "e2" => Driver.Bls.e2Gen args
+  | "ecdsa" => Driver.Ecdsa.run args
+  | "hash" => Driver.Hash.runHash args
+  | "kmac" => Driver.Hash.runKmac args
+  | "expect" => " ".intercalate (args.takeWhile (fun a => !a.startsWith "#"))
   | _ => "bad-op"
 
 def answer (line : String) : String :=
@@ -18,6 +34,7 @@ partial def loop (hin hout : IO.FS.Stream) : IO Unit := do
   let line ← hin.getLine
   if line.isEmpty then return ()
   hout.putStrLn (answer line)
+  hout.flush
   loop hin hout
 
 def main : IO Unit := do
